@@ -117,6 +117,12 @@ func (planH) Generate(property string, seed uint64, tier string) *Case {
 			add(planOp{Kind: "marker", Node: n, N: 1 + g.IntN(3)})
 		}
 	}
+	// the rarely used plugin whitelist of the node resource check: it must not reach into
+	// what later capacity questions see
+	var whitelist []string
+	if property == "C09" && np >= 2 && g.IntN(4) == 0 {
+		whitelist = pls[1+g.IntN(np-1):]
+	}
 	nq := 2 + g.IntN(5)
 	for i := 0; i < nq; i++ {
 		q := planOp{Kind: "query", Strategy: planStrategies[g.IntN(len(planStrategies))], Repeat: 1 + g.IntN(3)}
@@ -144,6 +150,9 @@ func (planH) Generate(property string, seed uint64, tier string) *Case {
 			}
 		}
 		add(q)
+		if len(whitelist) > 0 && g.IntN(2) == 0 {
+			add(planOp{Kind: "node_info", Node: pick(g, nodes)})
+		}
 		// answers may change between queries
 		if g.IntN(3) == 0 {
 			add(planOp{Kind: "answer", Plugin: pick(g, pls), Node: pick(g, nodes), Cap: 1 + g.IntN(10), Usage: float64(g.IntN(100)) / 100, Rate: float64(1+g.IntN(40)) / 100})
@@ -153,7 +162,7 @@ func (planH) Generate(property string, seed uint64, tier string) *Case {
 	if g.IntN(4) == 0 {
 		plan.ErrAt = []int{g.IntN(25 * nq)} // one failing plugin / store / lock call somewhere in the queries
 	}
-	return &Case{Plan: plan, Ops: ops}
+	return &Case{Plan: plan, Cfg: mustJSON(map[string][]string{"whitelist": whitelist}), Ops: ops}
 }
 
 type planAnswer struct {
@@ -175,6 +184,13 @@ type simPlugin struct {
 }
 
 func (p *simPlugin) Name() string { return p.name }
+
+func (p *simPlugin) GetNodeResourceInfo(ctx context.Context, nodename string, _ []plugintypes.WorkloadResource) (*plugintypes.GetNodeResourceInfoResponse, error) {
+	if err := p.sim.Seam(p.inst, "plugin-"+p.name, "GetNodeResourceInfo", true); err != nil {
+		return nil, err
+	}
+	return &plugintypes.GetNodeResourceInfoResponse{Capacity: plugintypes.NodeResource{}, Usage: plugintypes.NodeResource{}, Diffs: []string{}}, nil
+}
 
 func (p *simPlugin) GetNodesDeployCapacity(ctx context.Context, nodenames []string, _ plugintypes.WorkloadResourceRequest) (*plugintypes.GetNodesDeployCapacityResponse, error) {
 	if err := p.sim.Seam(p.inst, "plugin-"+p.name, "GetNodesDeployCapacity", true); err != nil {
@@ -283,6 +299,13 @@ func (planH) Execute(c *Case, res *Result) {
 		cfg := coretypes.Config{LockTimeout: 30 * time.Second, GlobalTimeout: 300 * time.Second, ConnectionTimeout: 10 * time.Second, MaxConcurrency: 100000, Store: "etcd"}
 		cfg.Etcd.LockPrefix = "/lock"
 		cfg.WALOpenTimeout = 8 * time.Second
+		var pcfg struct {
+			Whitelist []string `json:"whitelist"`
+		}
+		_ = json.Unmarshal(c.Cfg, &pcfg)
+		if len(pcfg.Whitelist) > 0 {
+			cfg.ResourcePlugin.Whitelist = pcfg.Whitelist
+		}
 		base := "/dev/shm"
 		if st, err := os.Stat(base); err != nil || !st.IsDir() {
 			base = os.TempDir()
@@ -356,6 +379,16 @@ func (planH) Execute(c *Case, res *Result) {
 						return
 					}
 					counts[op.Node]++
+				}
+			case "node_info":
+				if nodeSet[op.Node] {
+					sim.SetFaultsEnabled(false)
+					_, _, _, err := mgr.GetNodeResourceInfo(ctx, op.Node, nil, false)
+					if err != nil {
+						res.Harness = "node info: " + err.Error()
+						return
+					}
+					res.Probes["node_info_with_plugin_whitelist"]++
 				}
 			case "marker":
 				if !nodeSet[op.Node] {
@@ -519,7 +552,12 @@ func (planH) Execute(c *Case, res *Result) {
 							viol("C09", "order-dependent", plugKind, fmt.Sprintf("the same capacity question answered differently within one state:\n   first : %s\n   now   : %s", fmtInfos(mapInfos(firstInfos)), fmtInfos(call.Infos)))
 						}
 					}
-					// ---- C01 / C02 / C03 on the call as the real code made it ----
+					// ---- C01 / C02 / C03: candidates as the real code handed them over, count and
+					// limit as the *request* gave them (what is planned has to answer the request) ----
+					if call.Need != op.Count || call.Limit != op.Limit {
+						res.Probes["strategy_consulted_with_other_count_or_limit"]++
+					}
+					call.Need, call.Limit = op.Count, op.Limit
 					checkPlan(call, msg, err, viol, res)
 				}
 			}
